@@ -98,3 +98,65 @@ func TestKnownNegativeZeroScoreSign(t *testing.T) {
 		})
 	})
 }
+
+func TestKnownInfiniteScoreSpelling(t *testing.T) {
+	known.Probe(t, "C08-infinite-score-spelled-go-style", func() (bool, string) {
+		return script("pebble", []step{
+			{[]string{"zadd", "default:t:z", "inf", "m", "-inf", "n"}, ":2"},
+			{[]string{"zscore", "default:t:z", "m"}, `"inf"`},
+			{[]string{"zrange", "default:t:z", "0", "-1", "withscores"}, `["n" "-inf" "m" "inf"]`},
+		})
+	})
+}
+
+func TestKnownInfiniteRangeBoundSides(t *testing.T) {
+	known.Probe(t, "C08-infinite-range-bound-only-on-its-own-side", func() (bool, string) {
+		return script("pebble", []step{
+			{[]string{"zadd", "default:t:z", "1", "a", "inf", "m"}, ":2"},
+			{[]string{"zrangebyscore", "default:t:z", "+inf", "-inf"}, `[]`},
+			{[]string{"zcount", "default:t:z", "inf", "+inf"}, ":1"},
+			{[]string{"zrangebyscore", "default:t:z", "-inf", "inf"}, `["a" "m"]`},
+			{[]string{"zrangebylex", "default:t:z", "+", "-"}, `[]`},
+			{[]string{"zlexcount", "default:t:z", "+", "-"}, ":0"},
+		})
+	})
+}
+
+func TestKnownNaNScore(t *testing.T) {
+	known.Probe(t, "C08-nan-score-accepted", func() (bool, string) {
+		s, err := simkv.New(simkv.Options{Engine: "pebble"})
+		if err != nil {
+			return false, "HARNESS: " + err.Error()
+		}
+		defer s.Close()
+		for _, c := range [][]string{
+			{"zadd", "default:t:z", "nan", "e"},
+			{"zadd", "default:t:z", "1", "a", "NaN", "e"},
+			{"zincrby", "default:t:z", "nan", "e"},
+			{"zrangebyscore", "default:t:z", "nan", "1"},
+			{"zcount", "default:t:z", "0", "nan"},
+		} {
+			if r := s.Do(c...).One(); r.Kind != 'e' {
+				return true, fmt.Sprintf("%q -> %s, want an error (not a valid float)", c, r.String())
+			}
+		}
+		for _, st := range []step{
+			{[]string{"zcard", "default:t:z"}, ":0"},
+			{[]string{"zadd", "default:t:z", "inf", "m"}, ":1"},
+		} {
+			if got := s.Do(st.cmd...).String(); got != st.want {
+				return true, fmt.Sprintf("%q -> %s, want %s", st.cmd, got, st.want)
+			}
+		}
+		if r := s.Do("zincrby", "default:t:z", "-inf", "m").One(); r.Kind != 'e' {
+			return true, fmt.Sprintf("zincrby -inf on a score of inf -> %s, want an error (the result is not a number)", r.String())
+		}
+		if r := s.Do("zrange", "default:t:z", "0", "-1"); r.String() != `["m"]` {
+			return true, "after the refused ZINCRBY: zrange -> " + r.String()
+		}
+		if r := s.Do("zcount", "default:t:z", "-inf", "+inf"); r.String() != ":1" {
+			return true, "after the refused ZINCRBY: zcount -inf +inf -> " + r.String()
+		}
+		return false, ""
+	})
+}
